@@ -14,7 +14,17 @@ echo "== apply"; git apply "$M/patch.diff"; RA=$?
 echo "== build"; go build $(go list ./... | grep -v /out) ; RB=$?
 echo "== demo with patch"; go test -vet=off -count=1 -timeout 10m -run "^($TEST)\$" . ; R1=$?
 rm -f zz_demo_test.go
-echo "== suite with patch"; go test -vet=off -count=1 -timeout 25m $(go list ./... | grep -v /out) ; RS=$?
+echo "== suite with patch"; FLAKY=""; go test -vet=off -count=1 -timeout 25m $(go list ./... | grep -v /out) ; RS=$?
+if [ $RS -ne 0 ]; then
+  # tests of the existing suite that failed: rerun them alone (timing-based tests of the unmodified
+  # suite fail under load: Test_IdleCompactionThrottle, TestStoreCollHistograms, TestStoreCrashRecovery)
+  FAILED=$(grep -oE '^--- FAIL: (Test[A-Za-z0-9_]+)' "$LOG" | awk '{print $3}' | grep -v -E "^($TEST)\$" | sort -u | paste -sd'|')
+  if [ -n "$FAILED" ] && ! grep -q "panic: test timed out" "$LOG"; then
+    echo "== rerun of the failed suite tests alone: $FAILED"
+    go test -vet=off -count=2 -timeout 20m -run "^($FAILED)\$" . ; RS2=$?
+    if [ $RS2 -eq 0 ]; then RS=0; FLAKY="(flaky under load: $FAILED)"; fi
+  fi
+fi
 git checkout -- .
 } > "$LOG" 2>&1
-echo "$M tests=$TEST demo_clean_rc=$R0 apply_rc=$RA build_rc=$RB demo_patched_rc=$R1 suite_rc=$RS"
+echo "$M tests=$TEST demo_clean_rc=$R0 apply_rc=$RA build_rc=$RB demo_patched_rc=$R1 suite_rc=$RS $FLAKY"
